@@ -395,7 +395,7 @@ func (t *transport) Execute(ctx context.Context, req *federation.QueryRequest) (
 	}
 	resp, err := srv.Execute(ctx, &thunderpb.ExecuteRequest{Query: marshaled})
 	if err != nil {
-		if !isIntrospection {
+		if !isIntrospection && !(r != nil && r.wild) {
 			t.fw.requestErrors = append(t.fw.requestErrors, fmt.Sprintf("%s: %v", t.name, err))
 		}
 		return nil, err
@@ -410,6 +410,8 @@ type fedRequest struct {
 	// lenient: began while a service version with another key set was being
 	// rolled out and the gateway had not refreshed yet; it may fail
 	lenient      bool
+	wild         bool // untrusted text: only "it returns" is checked
+	vars         map[string]interface{}
 	mutation     bool
 	special      string        // "", "introspect-extra", "data-extra": issued after a service was redeployed with a new field
 	firstErrorAt time.Duration // simulated time (+1ns) at which a service error was first returned for this request
@@ -519,6 +521,15 @@ func fedBody(c *runner.Ctx) {
 	for i := 0; i < nReq; i++ {
 		g := &gen{c: c, w: w, budget: 12, noD: true, bs2: bs2Home != "", unionFrags: c.Choose(3, "union-type-fragments") == 1, bareFrags: true}
 		var r *fedRequest
+		if c.Choose(8, "untrusted-request") == 1 {
+			// a text no well-behaved client would send: the gateway owes an answer
+			// (data or an error), nothing else is predicted
+			text, vars := wildQuery(c, w)
+			c.Fault("untrusted-query-text")
+			reqs = append(reqs, &fedRequest{idx: i, text: text, vars: vars, wild: true, cancelAt: -1})
+			c.Describe("request %d (untrusted text): %s", i, text)
+			continue
+		}
 		if c.Choose(4, "request-kind") == 1 {
 			// a mutation whose response selects fields that live on other services
 			sel := &qsel{name: "touchA", argV: int64(c.Choose(w.nA+1, "arg-i"))}
@@ -564,7 +575,11 @@ func fedBody(c *runner.Ctx) {
 		go func() {
 			defer func() { finished++ }()
 			simrt.Sleep(start)
-			q, err := graphql.Parse(r.text, dirVars())
+			vars := dirVars()
+			if r.wild {
+				vars = r.vars
+			}
+			q, err := graphql.Parse(r.text, vars)
 			if err != nil {
 				r.rejected = err
 				return
@@ -670,6 +685,10 @@ func fedBody(c *runner.Ctx) {
 		}
 		if r.special != "" {
 			fw.checkSpecial(c, r)
+			continue
+		}
+		if r.wild {
+			c.Probe("gateway-answered-untrusted-text")
 			continue
 		}
 		ev := &evaluator{w: w}
